@@ -429,9 +429,12 @@ def check_front_ends(ctx):
             magic = f
     need(magic, "IPython magic function not found")
     ctx.saw(magic)
-    stmts = list(magic.body)
+    # all simple statements of the magic, in source order (the removal may sit under a guard)
+    stmts = sorted([x for x in ast.walk(magic.node) if isinstance(x, (ast.Assign, ast.AugAssign, ast.Expr, ast.Delete))], key=lambda x: (x.lineno, x.col_offset))
     rm_idx = add_idx = None
     touched = []  # statements that re-bind / mutate the transformer list in some other way
+    new_tr = {a.targets[0].id for a in stmts if isinstance(a, ast.Assign) and len(a.targets) == 1 and isinstance(a.targets[0], ast.Name)
+              and "JaxtypingTransformer(typechecker=Typechecker(" in norm(a.value)}
     for i, st in enumerate(stmts):
         txt = norm(st)
         rebinding = isinstance(st, (ast.Assign, ast.AugAssign)) and any("ast_transformers" in norm(t) for t in (st.targets if isinstance(st, ast.Assign) else [st.target]))
@@ -440,11 +443,28 @@ def check_front_ends(ctx):
             rm_idx = i
         elif rebinding or ("ast_transformers" in txt and any(w in txt for w in (".remove(", ".pop(", ".clear(", "del "))):
             touched.append(st)
-        if "ast_transformers.append" in txt and "JaxtypingTransformer(typechecker=Typechecker(" in txt:
+        if "ast_transformers.append" in txt and ("JaxtypingTransformer(typechecker=Typechecker(" in txt or any(
+                isinstance(c_, ast.Call) and isinstance(c_.func, ast.Attribute) and c_.func.attr == "append" and c_.args and isinstance(c_.args[0], ast.Name) and c_.args[0].id in new_tr
+                for c_ in ast.walk(st))):
             add_idx = i
     if add_idx is None:
         raise AnalysisError("C11.5: the IPython magic no longer appends JaxtypingTransformer(typechecker=Typechecker(..)) in a recognised form")
     if rm_idx is None and touched:
+        # a filter that keeps everything but ONE remembered object (`t is not self._transformer`) removes only what
+        # this Magics instance installed itself: a transformer left by an earlier instance (%reload_ext) survives
+        for st in touched:
+            conds = [i_ for x in ast.walk(st) if isinstance(x, ast.comprehension) for i_ in x.ifs] + [x.body for x in ast.walk(st) if isinstance(x, ast.Lambda)]
+            ident = [c_ for c_ in conds if isinstance(c_, ast.Compare) and len(c_.ops) == 1 and isinstance(c_.ops[0], (ast.Is, ast.IsNot, ast.Eq, ast.NotEq))
+                     and not any(isinstance(y, ast.Call) and norm(y.func) == "isinstance" for y in ast.walk(c_))]
+            removes_one = [c_ for c_ in ast.walk(st) if isinstance(c_, ast.Call) and isinstance(c_.func, ast.Attribute) and c_.func.attr == "remove"
+                           and "ast_transformers" in norm(c_.func.value) and c_.args and not isinstance(c_.args[0], ast.Call)]
+            if removes_one and not ident:
+                ident = [removes_one[0]]
+            if ident:
+                ctx.bad("C11.5", magic, st, f"the IPython magic removes only the transformer it remembers (`{short(ident[0], 50)}`), not every JaxtypingTransformer: one installed "
+                        "by an earlier instance of the magics (after %reload_ext) stays, so cells are instrumented twice / by the old checker",
+                        construct=f"magic: removal by identity {short(ident[0], 50)}")
+                return
         raise AnalysisError(f"C11.5: the IPython magic changes the transformer list by `{short(touched[0], 70)}`, which is not recognised as the removal of earlier JaxtypingTransformers")
     if rm_idx is None or rm_idx > add_idx:
         ctx.bad("C11.5", magic, magic.node, "the IPython magic does not remove an earlier JaxtypingTransformer before adding the new one: cells would be instrumented twice / "
